@@ -299,3 +299,65 @@ PLAN["C08"] = dict(
         dict(test="TestC08Rapid", checks=400000, shards=12, counts=["C08.fline"], timeout=3000),
     ],
 )
+
+PLAN["C09"] = dict(
+    technique="model-based PBT: name-addr values and lists rendered from a structured spec (display name, angle/bare URI, parameters with LWS/folds, quoted strings with commas/escapes), expected decomposition known by construction; through ParseNameAddrPVal, ParseAll*Values and ParseHeaders",
+    level_text=("Exploration: From/To/Contact/P-Asserted-Identity/Route/Record-Route values: none/token/quoted display names "
+                "(escapes, commas, '<' inside quotes), URI in angle brackets (may hold ';' '?' ',') or bare, 0..4 parameters in any "
+                "case with token/quoted/empty/missing values and LWS/folds around ';' '=' ',', Contact '*'; lists of 1..4 values in "
+                "1..3 headers; capacities none/0/1/2/3/10; optional Expires header. Expected per value: URI and tag exact (bytes "
+                "and offset), display name / parameter span / whole value up to trailing whitespace (documented allowance), "
+                "expires (saturating), q x 1000, lr, star, kind; per list: split points, N, HNo, Min/MaxExpires over all values "
+                "incl. those beyond capacity, MaxExpires() with the Expires header, GetContact(0)/(N-1), LastHVal and Hdr.Val of "
+                "each header."),
+    level_note=_MODEL_NOTE,
+    rule=("case = (header kind, headers x values specs, entry point, surrounding LWS, capacity, Expires header); non-trivial = "
+          "a value has a display name or parameters and contains LWS or a quoted string, or the case has >= 2 values; distinct by case hash"),
+    quick=[dict(test="TestC09Rapid", checks=25000, shards=12, counts=["C09.nameaddr"])],
+    thorough=[dict(test="TestC09Rapid", checks=250000, shards=16, counts=["C09.nameaddr"], timeout=3000)],
+)
+
+PLAN["C10"] = dict(
+    technique="model-based PBT + enumeration with a big-integer oracle: digit strings (boundary neighbourhoods of 2^16..2^64, multiples, leading zeros, 1..40 digits) in every numeric position, one-shot and cut inside the number",
+    level_text=("Exploration with exhaustive parts: every digit string of length 1..5 as URI port (two syntactic paths), "
+                "Content-Length and CSeq; every listed boundary (2^16, 2^24, 2^31, 2^32, 10^9, 10^10, 2^63, 2^64, 2^65, 10x2^64, "
+                "2^128 ...) +-20 in all 11 positions (CSeq, Content-Length stand-alone/in a message, Expires stand-alone/in a "
+                "message, Contact expires, URI port via host:port, user@host:port, with params, with headers, IPv6 host) with "
+                "every cut position; q: integer parts 0..20 / 2^64+{0,1} x every fraction of 0..4 digits. Oracle: math/big value "
+                "of the digit string: accepted => reported number equals it; beyond the documented range => rejected (q: unset and "
+                "flagged; Contact expires: saturates at 2^32-1). Status codes are enumerated under C08."),
+    level_note=_MODEL_NOTE + " Rejecting an over-long zero-padded in-range number is accepted either way (not claimed).",
+    rule=("case = (position, digit string, fraction, cut); non-trivial = value >= 2^16 or >= 5 digits or leading zeros (q: "
+          "always); distinct by case hash / enumerated strings distinct by construction"),
+    quick=[
+        dict(kind="enum", test="TestC10Enum", timeout=600),
+        dict(test="TestC10Rapid", checks=40000, shards=8, counts=["C10.num"]),
+    ],
+    thorough=[
+        dict(kind="enum", test="TestC10Enum", timeout=1200, env={"VERIF_C10_DIGITS": 6}),
+        dict(test="TestC10Rapid", checks=500000, shards=12, counts=["C10.num"], timeout=3000),
+    ],
+)
+
+PLAN["C17"] = dict(
+    technique="model-based PBT: parameter lists rendered from a spec (separators, terminators, quoted values, empty items, LWS/folds), expected items/verdict/offset by construction; illegal-byte injection; list wrappers with capacities; metamorphic Via-branch signature",
+    level_text=("Exploration: ParseTokenParam (called repeatedly with a fresh parameter after more-values), ParseAllURIParams "
+                "and ParseAllURIHdrs on generated lists of 0..5 items (token/quoted/empty/missing values, LWS and folds around "
+                "names, '=' and separators, empty items incl. trailing ones) under generated option flags (all 256 sets sampled; "
+                "';' and '&' separators; ',' '?' whitespace-then-token, end-of-header and end-of-input terminators): every "
+                "parameter once, in order, exact name/value bytes and offsets, more-values offset = next name, final verdict and "
+                "offset naming the terminator; wrappers: N, returned count, Types, per-item type, stored prefix. One byte outside "
+                "the documented character set injected at a generated name/value position must be rejected at that position. "
+                "GetViaBrSig(via with generated parameter list) == GetViaBrSig(canonical 'x;branch=value')."),
+    level_note=_MODEL_NOTE,
+    rule=("case = (list spec with flags and terminator, junk prefix, injected byte + position, entry point, capacity); "
+          "non-trivial = >= 2 items or a quoted value or LWS around a delimiter (injected cases always); distinct by case hash"),
+    quick=[
+        dict(test="TestC17Rapid", checks=30000, shards=10, counts=["C17.list"]),
+        dict(test="TestC17ViaRapid", checks=30000, shards=4, counts=["C17.viabr"]),
+    ],
+    thorough=[
+        dict(test="TestC17Rapid", checks=300000, shards=12, counts=["C17.list"], timeout=3000),
+        dict(test="TestC17ViaRapid", checks=300000, shards=4, counts=["C17.viabr"], timeout=3000),
+    ],
+)
